@@ -319,6 +319,7 @@ def _run(case):
       try:
         op = stp["op"]
         kf_flag = {}
+        n_before = len(objs)
         if op in ("multiply", "hadamard"):
             m = objs[stp["i"]]
             f = libx.make_factor(stp["fkind"], stp["f"])
@@ -435,6 +436,16 @@ def _run(case):
         f_inv = []
         for k, m in enumerate(objs):
             _check_measure(f_inv, f"obj{k}", m)
+        # caches are filled lazily: the newest object is additionally checked with its caches forced, on a clone of the
+        # same class (so the live object's cache state - and with it the cold paths of later steps - is left untouched)
+        if objs and len(objs) > n_before and not kf_flag:
+            def forced():
+                cl = _clone_measure(objs[-1])
+                cl.integrate("x")
+                return cl
+            ok_f, cl = lib(f_inv, f"obj{len(objs) - 1}:forced_caches", forced)
+            if ok_f:
+                _check_measure(f_inv, f"obj{len(objs) - 1}(forced)", cl)
         for k, c in enumerate(conds):
             _check_cond(f_inv, f"cond{k}", c)
         if f_inv:
